@@ -155,6 +155,12 @@ def handle (j : Json) : Except String Json := do
     pure (Json.mkObj [("ok", match C04.readCommentOn t with
       | some d => Json.mkObj [("entity", jstr d.entity), ("path", .arr (d.path.map jstr).toArray), ("text", jstr d.text)]
       | none => .null)])
+  | "readfkclause" =>
+    let t ← strF j "text"
+    pure (Json.mkObj [("ok", match C04.readFkClause t with
+      | some d => Json.mkObj [("constraint", jopt d.constraint), ("src_cols", .arr (d.srcCols.map jstr).toArray),
+          ("dst", jstr d.dst), ("dst_cols", .arr (d.dstCols.map jstr).toArray), ("actions", jstr d.actions)]
+      | none => .null)])
   | "readfk" =>
     let t ← strF j "text"
     pure (Json.mkObj [("ok", match C04.readFk t with
